@@ -592,13 +592,25 @@ func runC13(c *core.Case) *core.Result {
 		for j := 0; j < n; j++ {
 			entries = append(entries, enter(fmt.Sprintf("R%d", j)))
 		}
+		// in half of the racing cells the racers do not start at the same moment but within a
+		// few milliseconds of each other: one arrives while another is inside and a third waits
+		stagger := make([]time.Duration, len(entries))
+		if r.Intn(2) == 0 {
+			for j := range stagger {
+				stagger[j] = time.Duration(r.Intn(4000)) * time.Microsecond
+			}
+			c.Count("racing_cells_with_staggered_arrivals", 1)
+		}
 		var wg sync.WaitGroup
-		for _, e := range entries {
+		for j, e := range entries {
 			wg.Add(1)
-			go func(e *c13entry) {
+			go func(e *c13entry, d time.Duration) {
 				defer wg.Done()
+				if d > 0 {
+					time.Sleep(d)
+				}
 				doSync(e, false)
-			}(e)
+			}(e, stagger[j])
 		}
 		wg.Wait()
 		if !w.idle() {
